@@ -157,6 +157,30 @@ P = {
 }
 
 
+# sentences added after seeding round six and the resolver repairs (kept apart from the table above)
+MORE = {
+ 'C01': ' An existing single section that is kept is not handed to the defaults builder again (R1.11, found and fixed 0495e69).',
+ 'C02': ' The parser name lookup never goes on from a path step that did not resolve (R2.13 = C11 R11.7).',
+ 'C03': ' A copy loop over matched text emits exactly as many bytes as the match is long (R3.7).',
+ 'C04': ' After a radix prefix the verdict about the text is the conversion own one: nothing refuses what strtol accepts (R4.12).',
+ 'C05': ' A comment token only replaces the pending annotation (R5.12 = C15 R15.1).',
+ 'C06': ' cfg_error() delivers every message on each of its paths (R6.6).',
+ 'C07': ' No function frees one of its own string parameters (R7.10); every exit of the end-of-file action leaves the include stack pointer at its entry value unless a level was closed (R7.6).',
+ 'C08': ' Line counting and the file-name hand-over start afresh with every parse (R8.11 = C06 R6.5).',
+ 'C09': ' The width fetched per variadic list element is the promoted width of the documented argument type (R9.14).',
+ 'C10': ' Unconvertible text is refused before the store (R10.10 = the conversion discipline of C04).',
+ 'C11': ' Once the closing quote of a well-formed quoted qualifier was seen the title parser returns a title (R11.12); the name looked up is the whole step (R11.13); an index qualifier has at least one digit and reaches the 32-bit accessor only below a bound (R11.5); the byte behind a qualifier was shown to be the separator or the end (R11.14); a path ending in a separator does not resolve (R11.15) - the last three found four defects, fixed 91d5190.',
+ 'C12': ' The name state equals the reference automaton under every flag combination (R12.11 = C01 R1.1).',
+ 'C13': ' Every entry into a section body hands over file name, line and error function (R13.12); the unwinder is given the level the parse started at (R13.6).',
+ 'C14': ' No decision reads errno after a user callback ran on the path without a store in between (R14.10).',
+ 'C15': ' The comment getter finds its option through the one resolver (R15.8 = C11 R11.1).',
+ 'C16': ' A section is handed to the defaults builder exactly on the paths that created it (R16.10); every scan begins in the initial start condition (R16.11 = C08 R8.1).',
+ 'C17': ' Every registered directory is tried until one yields a regular file: the search leaves early only with a result (R17.12).',
+ 'C18': ' On a failing exit of a fallible appender the element count has its entry value (R18.10).',
+ 'C19': ' The layout of an option is chosen by type from the set the reader dispatch knows (R19.5); the filter setter stores its argument whenever the context is non-NULL (R19.6).',
+}
+
+
 def main():
     checks = []
     na = []
@@ -171,7 +195,7 @@ def main():
                 'evidence_file': '/verif/evidence/%s.json' % pid,
                 'replay_cmd_template': './check explain {path}',
                 'engine': 'lcverif',
-                'level_claimed': {'category': 'other', 'text': d['text'], 'design_ref': d['ref']},
+                'level_claimed': {'category': 'other', 'text': d['text'] + MORE.get(pid, ''), 'design_ref': d['ref']},
                 'level_note': d['note'],
                 'technique': d['tech'],
             })
